@@ -158,6 +158,35 @@ fn boundary_literals() -> &'static Vec<String> {
                 }
             }
         }
+        // exact midpoints followed by a long run of zeros and a final non-zero digit (the excess decides the rounding)
+        for anchor in [1.0f64, 9007199254740992.0, 0.5, 0.1, 1e22, 123456.789, 4.35] {
+            let (m, e) = decompose(anchor);
+            if let Some(s) = exact_decimal(&BigU::from_u64(2 * m + 1), e - 1) {
+                let s = if s.contains('.') { s } else { format!("{}.", s) };
+                for k in [1usize, 20, 100, 300, 340, 345, 400, 700] {
+                    v.push(format!("{}{}1", s, "0".repeat(k)));
+                }
+            }
+        }
+        // redundant leading zeros in front of ordinary literals
+        for k in [1usize, 5, 17, 18, 19, 20, 30, 46, 47, 48, 49, 64, 100, 200, 300] {
+            for lit in ["42", "12.50", "0.0000000000000000000000000001", ".5", "7.", "9007199254740993", "123456789.125"] {
+                v.push(format!("{}{}", "0".repeat(k), lit));
+            }
+        }
+        // long leading-dot literals
+        for d in [19usize, 20, 21, 25, 28, 29, 30, 40] {
+            v.push(format!(".{}", "3".repeat(d)));
+            v.push(format!(".{}", "9".repeat(d)));
+            v.push(format!(".{}1", "0".repeat(d)));
+            v.push(format!(".{}5", "0".repeat(d)));
+        }
+        // digit patterns around 2^53 with the point at every position
+        for digits in ["9007199254740993", "9007199254740992", "9007199254740991", "9007199254740995", "18014398509481985", "4503599627370497"] {
+            for p in 0..=digits.len() {
+                v.push(format!("{}.{}", &digits[..p], &digits[p..]));
+            }
+        }
         v.push("9223372036854775807".into());
         v.push("9223372036854775806".into());
         v.push(format!("179769313486231570{}", "0".repeat(291)));
